@@ -268,21 +268,58 @@ impl ToRpcParams for RawParams {
 	}
 }
 
+/// Client options of a case that do not change what the histories of this harness observe: the request timeout
+/// (never reached: `futures_timer` runs on the wall clock and cases take milliseconds) and WS pings (interval of
+/// a day of the paused tokio clock).  Header: `case <n> client <num|str> <cap> <fcap> [t=<secs>,ping=<0|1>]`.
+#[derive(Debug, Clone, Copy)]
+pub struct CaseOpts {
+	pub timeout_secs: u64,
+	pub ping: bool,
+}
+impl Default for CaseOpts {
+	fn default() -> Self {
+		CaseOpts { timeout_secs: 3600, ping: false }
+	}
+}
+
+pub fn parse_case_opts(line: &str) -> CaseOpts {
+	let mut o = CaseOpts::default();
+	let w: Vec<&str> = line.split(' ').filter(|s| !s.is_empty()).collect();
+	if let Some(opts) = w.get(6) {
+		for kv in opts.split(',') {
+			match kv.split_once('=') {
+				Some(("t", v)) => o.timeout_secs = v.parse().unwrap_or(3600).max(60),
+				Some(("ping", v)) => o.ping = v == "1",
+				_ => {}
+			}
+		}
+	}
+	o
+}
+
 impl Session {
 	/// must be called inside the runtime
 	pub fn new(str_ids: bool, cap: usize, fcap: usize) -> Session {
+		Session::new_with(str_ids, cap, fcap, CaseOpts::default())
+	}
+
+	pub fn new_with(str_ids: bool, cap: usize, fcap: usize, opts: CaseOpts) -> Session {
 		let ctl = Arc::new(Mutex::new(Ctl::default()));
 		let (gate_tx, gate_rx) = watch::channel(true);
 		let (close_gate_tx, close_gate_rx) = watch::channel(true);
 		let (to_client, rx) = mpsc::unbounded_channel();
 		let sender = MockSender { ctl: ctl.clone(), gate: gate_rx, close_gate: close_gate_rx };
 		let receiver = MockReceiver { rx };
-		let client: Client = ClientBuilder::default()
-			.request_timeout(Duration::from_secs(3600))
+		let mut builder = ClientBuilder::default()
+			.request_timeout(Duration::from_secs(opts.timeout_secs))
 			.max_concurrent_requests(fcap)
 			.max_buffer_capacity_per_subscription(cap)
-			.id_format(if str_ids { IdKind::String } else { IdKind::Number })
-			.build_with_tokio(sender, receiver);
+			.id_format(if str_ids { IdKind::String } else { IdKind::Number });
+		if opts.ping {
+			let day = Duration::from_secs(86_400);
+			builder = builder.enable_ws_ping(jsonrpsee_core::client::async_client::PingConfig::new().ping_interval(day).inactive_limit(day * 2));
+		}
+		let client: Client = builder.build_with_tokio(sender, receiver);
 		Session {
 			client: Arc::new(client),
 			ctl,
@@ -409,7 +446,7 @@ impl Session {
 	pub async fn exec(&mut self, line: &str) -> Obs {
 		let w: Vec<&str> = line.split(' ').filter(|s| !s.is_empty()).collect();
 		let mut obs = Obs::default();
-		if self.dead {
+		if self.dead && !matches!(w[1], "call" | "batch" | "tbatch" | "subscribe" | "regnotif" | "notify" | "connected") {
 			obs.literal = Some("#skip dead".into());
 			return obs;
 		}
@@ -477,7 +514,12 @@ impl Session {
 				}
 				self.settle(&mut obs).await;
 			}
-			("deliver", [h]) => {
+			("connected", _) => {
+				// `Client::is_connected`
+				barrier().await;
+				obs.literal = Some(format!("connected {}", self.client.is_connected()));
+			}
+			("deliver", [h]) | ("deliverx", [h]) => {
 				self.inject(Ok(ReceivedMessage::Text(txt(h))));
 				self.settle(&mut obs).await;
 				if obs.fatal.is_some() {
@@ -652,7 +694,7 @@ fn batch_comp(r: &BatchResponse<'_, Raw>) -> Comp {
 /// Parameters of a `case <n> client <num|str> <cap> <fcap>` header.
 pub fn parse_case_header(line: &str) -> Option<(bool, usize, usize)> {
 	let w: Vec<&str> = line.split(' ').filter(|s| !s.is_empty()).collect();
-	if w.len() == 6 && w[0] == "case" && w[2] == "client" {
+	if (w.len() == 6 || w.len() == 7) && w[0] == "case" && w[2] == "client" {
 		Some((w[3] == "str", w[4].parse().ok()?, w[5].parse().ok()?))
 	} else {
 		None
@@ -670,7 +712,7 @@ pub fn run_case(lines: &[String], mut on_line: impl FnMut(&str, &Obs)) {
 	};
 	let rt = tokio::runtime::Builder::new_current_thread().enable_time().start_paused(true).build().unwrap();
 	rt.block_on(async {
-		let mut s = Session::new(str_ids, cap, fcap);
+		let mut s = Session::new_with(str_ids, cap, fcap, parse_case_opts(&lines[0]));
 		on_line(&lines[0], &Obs { literal: Some("case".into()), ..Default::default() });
 		for l in &lines[1..] {
 			let obs = s.exec(l).await;
